@@ -22,6 +22,7 @@ import (
 	"sort"
 	"strconv"
 	"strings"
+	"sync"
 	"time"
 
 	"go.uber.org/zap"
@@ -38,6 +39,7 @@ import (
 	pb "github.com/ozontech/seq-db/pkg/storeapi"
 	"github.com/ozontech/seq-db/seq"
 	"github.com/ozontech/seq-db/storeapi"
+	"github.com/ozontech/seq-db/verifhook"
 
 	"verifharness/internal/vh"
 )
@@ -65,6 +67,9 @@ type reqID struct {
 type request struct {
 	Class string  `json:"class"`
 	IDs   []reqID `json:"ids"`
+	// Late: documents ingested into the active fraction at the moment the fetch has just created that fraction's
+	// data provider (forced through the c07.dp.created point); their IDs are part of IDs
+	Late []docSpec `json:"late,omitempty"`
 }
 
 type scenario struct {
@@ -215,6 +220,8 @@ func (s *fakeStream) Send(d *pb.BinaryData) error {
 
 // runRequest streams one request through the real GrpcV1.Fetch and compares with the ingested bytes.
 // Returns "" when the property holds, else a description (prefix "error:" when the request failed).
+var lateFound, lateMissing int // late documents answered verbatim / not yet visible (child process counters)
+
 func runRequest(st *store, sc *scenario, r request) string {
 	req := &pb.FetchRequest{}
 	withHints := false
@@ -229,6 +236,30 @@ func runRequest(st *store, sc *scenario, r request) string {
 			req.IdsWithHints = append(req.IdsWithHints, &pb.IdWithHint{Id: s, Hint: st.hintName(id.Hint)})
 		} else {
 			req.Ids = append(req.Ids, s)
+		}
+	}
+	late := map[[2]uint64]docSpec{}
+	if len(r.Late) > 0 {
+		var once sync.Once
+		verifhook.Set(func(name, _ string, _ []int64) {
+			if name != "c07.dp.created" {
+				return
+			}
+			once.Do(func() {
+				dp := frac.NewDocProvider()
+				for _, d := range r.Late {
+					dp.Append(docBytes(d.MID, d.RID, d.Size), nil, seq.ID{MID: seq.MID(d.MID), RID: seq.RID(d.RID)}, seq.Tokens("_all_:", "service:c04"))
+				}
+				breq := &pb.BulkRequest{Count: int64(dp.DocCount)}
+				breq.Docs, breq.Metas = dp.Provide()
+				if _, err := st.g.Bulk(context.Background(), breq); err == nil {
+					st.fm.WaitIdle()
+				}
+			})
+		})
+		defer verifhook.Set(nil)
+		for _, d := range r.Late {
+			late[[2]uint64{d.MID, d.RID}] = d
 		}
 	}
 	fs := &fakeStream{ctx: context.Background()}
@@ -246,6 +277,15 @@ func runRequest(st *store, sc *scenario, r request) string {
 		}
 		got := blk.Payload()
 		want := sc.lookup(id)
+		if d, isLate := late[[2]uint64{id.MID, id.RID}]; isLate {
+			// ingested while the fetch was running: verbatim or not yet visible, never anything else
+			if len(got) == 0 {
+				lateMissing++
+				continue
+			}
+			lateFound++
+			want = docBytes(d.MID, d.RID, d.Size)
+		}
 		if !bytes.Equal(got, want) {
 			return fmt.Sprintf("mismatch: entry %d (id %d:%d hint %d): got %d bytes %q, ingested %d bytes %q", i, id.MID, id.RID, id.Hint, len(got), clip(got), len(want), clip(want))
 		}
@@ -301,6 +341,10 @@ func childMain(path string) {
 			res = "ok"
 		}
 		fmt.Printf("res %d %s\n", j, strings.ReplaceAll(res, "\n", " "))
+		if len(r.Late) > 0 {
+			fmt.Printf("late %d %d\n", lateFound, lateMissing)
+			lateFound, lateMissing = 0, 0
+		}
 	}
 	fmt.Println("done")
 	st.close()
@@ -308,6 +352,7 @@ func childMain(path string) {
 }
 
 type childResult struct {
+	lateFound, lateMissing int
 	res     map[int]string // request index -> "ok" | "error: ..." | "mismatch: ..."
 	died    int            // request index during which the process died, -1 if it finished
 	stderr  string
@@ -344,6 +389,14 @@ func runChild(sc *scenario, skip []int, timeout time.Duration) childResult {
 				cr.res[j] = fs[2]
 			}
 			begun = -1
+		case "late":
+			a, _ := strconv.Atoi(fs[1])
+			b := 0
+			if len(fs) > 2 {
+				b, _ = strconv.Atoi(fs[2])
+			}
+			cr.lateFound += a
+			cr.lateMissing += b
 		case "done":
 			finished = true
 		case "child-error":
@@ -378,12 +431,15 @@ func runChild(sc *scenario, skip []int, timeout time.Duration) childResult {
 func genFracs(r *vh.RNG, k, docsPer int, sizes func() int, lastActive bool) []fracSpec {
 	var fs []fracSpec
 	base := uint64(1_700_000_000_000)
+	// layout of the time ranges: 0 = disjoint / touching, 1 = partially overlapping, 2 = same start (nested ranges,
+	// equal timestamps in several fractions); an ID without hint is then looked up in several fractions
+	layout := r.Intn(3)
+	seen := map[[2]uint64]bool{}
 	for i := 0; i < k; i++ {
 		f := fracSpec{Sealed: !(lastActive && i == k-1)}
 		n := max(1, docsPer/2+r.Intn(docsPer+1))
 		span := uint64(1 + r.Intn(3*n))
-		seen := map[[2]uint64]bool{}
-		for len(f.Docs) < n {
+		for tries := 0; len(f.Docs) < n && tries < 50*n+100; tries++ {
 			mid := base + uint64(r.Intn(int(span)))
 			if len(f.Docs) == 0 {
 				mid = base // the border timestamps are always populated
@@ -398,7 +454,12 @@ func genFracs(r *vh.RNG, k, docsPer int, sizes func() int, lastActive bool) []fr
 			f.Docs = append(f.Docs, docSpec{MID: mid, RID: rid, Size: sizes()})
 		}
 		fs = append(fs, f)
-		base += span + uint64(r.Intn(3)) // next fraction starts right after, or after a small gap
+		switch layout {
+		case 0:
+			base += span + uint64(r.Intn(3)) // next fraction starts right after, or after a small gap
+		case 1:
+			base += uint64(r.Intn(int(span))) // starts inside the previous range
+		}
 	}
 	return fs
 }
@@ -437,10 +498,18 @@ func absentID(r *vh.RNG, fs []fracSpec, class string) reqID {
 		}
 		return reqID{MID: d.MID, RID: d.RID - 1, Hint: -1}
 	case "below-all":
-		f0, _ := fs[0].borders()
+		f0 := ^uint64(0)
+		for i := range fs {
+			a, _ := fs[i].borders()
+			f0 = min(f0, a)
+		}
 		return reqID{MID: f0 - 1 - uint64(r.Intn(1000)), RID: r.U64() | 1, Hint: -1}
 	case "above-all":
-		_, tl := fs[len(fs)-1].borders()
+		tl := uint64(0)
+		for i := range fs {
+			_, b := fs[i].borders()
+			tl = max(tl, b)
+		}
 		return reqID{MID: tl + 1 + uint64(r.Intn(1000)), RID: r.U64() | 1, Hint: -1}
 	default: // inside: odd random part never stored
 		return reqID{MID: from + uint64(r.Intn(int(to-from+1))), RID: uint64(2*r.Intn(6000) + 1), Hint: -1}
@@ -576,6 +645,28 @@ func genScenario(r *vh.RNG, name string, shape int, thorough bool) scenario {
 		for i := 0; i < 4; i++ {
 			sc.Reqs = append(sc.Reqs, genRequest(r, sc.Fracs, 1+r.Intn(8), []int{0, 30}[r.Intn(2)], []string{"inside", "above-all", "border-high"}, false, orders[r.Intn(3)]))
 		}
+	case 5: // active fraction that receives a bulk between the creation of its data provider and the position lookup
+		sc.Fracs = genFracs(r, 1+r.Intn(3), 10, mixed, true)
+		act := &sc.Fracs[len(sc.Fracs)-1]
+		from, to := act.borders()
+		for i := 0; i < 6; i++ {
+			rq := genRequest(r, sc.Fracs, 1+r.Intn(8), []int{0, 30, 60}[r.Intn(3)], absentClasses, false, orders[r.Intn(3)])
+			nl := 1 + r.Intn(4)
+			for k := 0; k < nl; k++ {
+				d := docSpec{MID: from + uint64(r.Intn(int(to-from+1))), RID: uint64(20000 + 100*i + 2*k), Size: mixed()}
+				rq.Late = append(rq.Late, d)
+				rq.IDs = append(rq.IDs, reqID{MID: d.MID, RID: d.RID, Hint: -1})
+			}
+			// late IDs anywhere in the request
+			p := r.Perm(len(rq.IDs))
+			ids := make([]reqID, len(rq.IDs))
+			for a, b := range p {
+				ids[a] = rq.IDs[b]
+			}
+			rq.IDs = ids
+			rq.Class = "late-bulk-into-active " + rq.Class
+			sc.Reqs = append(sc.Reqs, rq)
+		}
 	case 4: // 100k IDs, mostly absent, over one mid-sized fraction pair
 		sc.Fracs = genFracs(r, 2, 3000, func() int { return 200 + r.Intn(200) }, false)
 		sc.Reqs = append(sc.Reqs, genRequest(r, sc.Fracs, 100000, 95, []string{"inside", "above-all", "below-all"}, false, "random"))
@@ -624,10 +715,19 @@ func minimise(sc scenario, site, class string, budget int) scenario {
 		cr := runChild(c, nil, 60*time.Second)
 		died := cr.died >= 0
 		s, k := classify(cr.res[0], cr.stderr, died, cr.timeout)
+		s, k = adjustLate(s, k, c.Reqs[0])
 		return (died || (cr.res[0] != "ok" && cr.res[0] != "")) && s == site && k == class
 	}
 	with := func(ids []reqID, fracs []fracSpec) *scenario {
-		return &scenario{Name: sc.Name, Fracs: fracs, Reqs: []request{{Class: sc.Reqs[0].Class, IDs: ids}}}
+		var late []docSpec
+		for _, d := range sc.Reqs[0].Late {
+			for _, id := range ids {
+				if id.MID == d.MID && id.RID == d.RID {
+					late = append(late, d)
+				}
+			}
+		}
+		return &scenario{Name: sc.Name, Fracs: fracs, Reqs: []request{{Class: sc.Reqs[0].Class, IDs: ids, Late: late}}}
 	}
 	// 1. drop requested IDs
 	ids := sc.Reqs[0].IDs
@@ -693,6 +793,12 @@ func runOracle(rep *vh.Report, orc *vh.Oracle, sc *scenario, minimiseBudget int)
 			orc.Error = "child produced no result: " + cr.stderr
 			return
 		}
+		for k := 0; k < cr.lateFound; k++ {
+			orc.Distribution["late-document-answered-verbatim"]++
+		}
+		for k := 0; k < cr.lateMissing; k++ {
+			orc.Distribution["late-document-not-yet-visible"]++
+		}
 		for j, r := range sc.Reqs {
 			res, ok := cr.res[j]
 			if !ok {
@@ -704,7 +810,11 @@ func runOracle(rep *vh.Report, orc *vh.Oracle, sc *scenario, minimiseBudget int)
 					nAbsent++
 				}
 			}
-			orc.Case(fmt.Sprintf("%s#%d %s", sc.Name, j, r.Class), nAbsent > 0 && nAbsent < len(r.IDs), "req:"+r.Class)
+			tags := []string{"req:" + r.Class}
+			if multiCandidate(sc, r) {
+				tags = append(tags, "present-id-without-hint-in-range-of-several-fractions")
+			}
+			orc.Case(fmt.Sprintf("%s#%d %s", sc.Name, j, r.Class), nAbsent > 0 && nAbsent < len(r.IDs), tags...)
 			if res != "ok" && j != cr.died {
 				site, class := classify(res, "", false, false)
 				reportViolation(rep, sc, j, site, class, res, reported, minimiseBudget)
@@ -741,6 +851,31 @@ func runOracle(rep *vh.Report, orc *vh.Oracle, sc *scenario, minimiseBudget int)
 	}
 }
 
+// multiCandidate: some present ID without hint lies in the time range of a fraction, other than its holder, that is
+// visited after the holder (its not-found answer must not wipe the document).
+func multiCandidate(sc *scenario, r request) bool {
+	for _, id := range r.IDs {
+		if id.Hint != -1 || sc.lookup(id) == nil {
+			continue
+		}
+		holder := -1
+		for k, f := range sc.Fracs {
+			for _, d := range f.Docs {
+				if d.MID == id.MID && d.RID == id.RID {
+					holder = k
+				}
+			}
+		}
+		for k := holder + 1; k < len(sc.Fracs); k++ {
+			from, to := sc.Fracs[k].borders()
+			if from <= id.MID && id.MID <= to {
+				return true
+			}
+		}
+	}
+	return false
+}
+
 func firstLine(s string) string {
 	for _, l := range strings.Split(s, "\n") {
 		if strings.HasPrefix(l, "panic:") || strings.HasPrefix(l, "fatal error:") {
@@ -753,7 +888,16 @@ func firstLine(s string) string {
 	return s
 }
 
+// adjustLate: the recovered panic of a fetch that raced with a bulk into the active fraction is not the sealed ID lookup
+func adjustLate(site, class string, r request) (string, string) {
+	if len(r.Late) > 0 && class == "absent-id-below-all-stored" {
+		return "frac/active_index.go:GetBlocksOffsets", "block-appended-after-provider-copy"
+	}
+	return site, class
+}
+
 func reportViolation(rep *vh.Report, sc *scenario, j int, site, class, what string, reported map[string]bool, budget int) {
+	site, class = adjustLate(site, class, sc.Reqs[j])
 	key := site + "|" + class
 	if reported[key] {
 		return
@@ -1419,10 +1563,10 @@ func main() {
 	}
 	if run("fetch.stream") {
 		r := rng.Fork()
-		shapes := []int{0, 0, 0, 1, 1, 2, 3}
+		shapes := []int{0, 0, 0, 1, 1, 2, 3, 5}
 		if o.Thorough() {
 			shapes = nil
-			for sh, n := range []int{60, 20, 8, 6, 2} {
+			for sh, n := range []int{60, 20, 8, 6, 2, 12} {
 				for i := 0; i < n; i++ {
 					shapes = append(shapes, sh)
 				}
